@@ -14,6 +14,9 @@ import (
 	"strconv"
 	"strings"
 	"sync"
+	"sync/atomic"
+
+	"golang.org/x/sys/unix"
 
 	vsys "github.com/panjf2000/gnet/v2/pkg/verifsys"
 )
@@ -53,7 +56,21 @@ func hoStart() {
 		case "closeConns":
 			hoEvents = append(hoEvents, "X:"+f[2])
 		}
-	}, nil)
+	}, func(call string, fd int) vsys.Directive {
+		if call == "dup" && atomic.CompareAndSwapInt32(&hoDupFault, 1, 0) {
+			return vsys.Directive{Kind: "errno", Errno: unix.EMFILE}
+		}
+		return vsys.Directive{}
+	})
+}
+
+var hoDupFault int32
+
+// hoArmDupFault makes the next dup(2) the framework issues fail with EMFILE (descriptor exhaustion at the moment a
+// connection is enrolled); false = this build cannot inject faults
+func hoArmDupFault() bool {
+	atomic.StoreInt32(&hoDupFault, 1)
+	return true
 }
 
 // hoReport: the event list and the number of leaked connected sockets (counted by the caller)
